@@ -739,12 +739,24 @@ func (t *Tree) Compile(file string, args []string, out io.Writer) (err error) {
 				for i := range properties {
 					properties[i].s = set.NewSet()
 				}
+				nullable := false
 				for i, element := range n.Iterator2() {
-					consumes, properties[i].s = optimizeAlternates(element)
+					var elementConsumes bool
+					elementConsumes, properties[i].s = optimizeAlternates(element)
 					s = s.Union(properties[i].s)
+					if !elementConsumes {
+						consumes = false
+						if element.GetType() != TypeNil {
+							nullable = true
+						}
+					}
 				}
 
 				if firstPass {
+					break
+				}
+				/* an alternative that can succeed without consuming cannot be dispatched on the next character */
+				if nullable {
 					break
 				}
 
